@@ -1,10 +1,343 @@
-//! C04 part 3: exact exploration of relation-store insertion orders.  Filled in once the
-//! relation-store hooks (C11) are merged.
-use crate::engine::{Ctx, Fail, Local};
+//! C04 part 3: exact exploration of what the relation-store lock serialises.
+//!
+//! Every mutation of `RelationSet` happens under its write lock, so any interleaving of
+//! sieving threads is equivalent to SOME ORDER of `add` calls.  The `relation_added` hook
+//! records the adds of real single-threaded sieves; they are replayed into a fresh store in
+//! generated orders (proptest: reversal, rotations, block swaps, round-robin interleavings of
+//! k virtual threads that each own a contiguous chunk, random transpositions).  After every
+//! step the published cycles are re-verified with independent arithmetic, internal panics
+//! (the store's consistency assertions) are violations, and at the end the final
+//! combination step must return proper divisors only.  This part is a pure function of the
+//! seed and shrinks to a minimal reordering.
+
+use std::sync::Mutex;
+
+use proptest::prelude::*;
+use serde::{Deserialize, Serialize};
 use serde_json::Value;
 
-pub fn run(_ctx: &Ctx, _l: &mut Local) {}
+use crate::engine::{guard, replay_as, Ctx, Fail, Local};
+use crate::oracle::int::{certified_prime, powmod, widen, Ref, SplitMix, U1024};
+use yamaquasi::relations::{Relation, RelationSet};
+use yamaquasi::{Algo, Preferences, Uint, Verbosity};
 
-pub fn replay(_ctx: &Ctx, check: &str, _case: &Value) -> Result<(), Fail> {
-    Err(Fail::new("HARNESS|unknown-check", check.to_string()))
+#[derive(Clone, Debug, Serialize, Deserialize)]
+pub struct RelSer {
+    #[serde(with = "crate::ser::dec")]
+    pub x: U1024,
+    pub cofactor: u64,
+    pub cyclelen: u64,
+    pub factors: Vec<(i64, u64)>,
+    pub pq: Option<(u64, u64)>,
+}
+
+impl RelSer {
+    fn rel(&self) -> Relation {
+        Relation { x: self.x, cofactor: self.cofactor, cyclelen: self.cyclelen, factors: self.factors.clone() }
+    }
+}
+
+#[derive(Clone, Debug)]
+pub struct History {
+    /// the integer being factored (the sieves hand this one, without multiplier, to final_step)
+    pub n_orig: U1024,
+    pub n: U1024,
+    pub fbsize: usize,
+    pub maxlarge: u64,
+    pub adds: Vec<RelSer>,
+    pub source: String,
+}
+
+struct Rec {
+    n: Uint,
+    fbsize: usize,
+    maxlarge: u64,
+    r: RelSer,
+}
+
+static RECORDER: Mutex<Vec<Rec>> = Mutex::new(Vec::new());
+
+fn add_sink(n: &Uint, fbsize: usize, maxlarge: u64, r: &Relation, pq: &Option<(u64, u64)>) {
+    RECORDER.lock().unwrap().push(Rec {
+        n: *n,
+        fbsize,
+        maxlarge,
+        r: RelSer { x: r.x, cofactor: r.cofactor, cyclelen: r.cyclelen, factors: r.factors.clone(), pq: *pq },
+    });
+}
+
+/// Record the add calls of one real single-threaded factorisation, grouped by relation store.
+pub fn record(n: &U1024, algo: Algo, use_double: Option<bool>, source: &str) -> Result<Vec<History>, Fail> {
+    RECORDER.lock().unwrap().clear();
+    yamaquasi::verif_sched::set_add_sink(Some(add_sink));
+    let mut prefs = Preferences::default();
+    prefs.verbosity = Verbosity::Silent;
+    prefs.use_double = use_double;
+    let r = guard("factor(recording)", || yamaquasi::factor(*n, algo, &prefs));
+    yamaquasi::verif_sched::set_add_sink(None);
+    r?.ok();
+    let recs = std::mem::take(&mut *RECORDER.lock().unwrap());
+    let mut out: Vec<History> = vec![];
+    for rec in recs {
+        match out.iter_mut().find(|h| h.n == rec.n && h.fbsize == rec.fbsize && h.maxlarge == rec.maxlarge) {
+            Some(h) => h.adds.push(rec.r),
+            None => out.push(History { n_orig: *n, n: rec.n, fbsize: rec.fbsize, maxlarge: rec.maxlarge, adds: vec![rec.r], source: source.to_string() }),
+        }
+    }
+    Ok(out)
+}
+
+/// Independent check of a congruence: x^2 == cofactor * prod f^k (mod n), with -1 for the sign.
+pub fn congruence_holds(n: &U1024, r: &Relation) -> bool {
+    let nr: Ref = widen(n);
+    let mut rhs = Ref::from(r.cofactor) % nr;
+    for &(f, k) in &r.factors {
+        if f == -1 {
+            if k % 2 == 1 {
+                rhs = (nr - rhs) % nr;
+            }
+        } else if f > 0 {
+            rhs = (rhs * powmod(&Ref::from(f as u64), &Ref::from(k), &nr)) % nr;
+        } else {
+            return false;
+        }
+    }
+    let x: Ref = widen(&r.x);
+    (x * x) % nr == rhs
+}
+
+#[derive(Clone, Debug, Serialize, Deserialize)]
+pub struct OrderCase {
+    #[serde(with = "crate::ser::dec")]
+    pub n_orig: U1024,
+    /// modulus of the relation store (multiplier included)
+    #[serde(with = "crate::ser::dec")]
+    pub n: U1024,
+    pub fbsize: usize,
+    pub maxlarge: u64,
+    pub source: String,
+    /// the adds in the order in which they are replayed
+    pub adds: Vec<RelSer>,
+    /// positions of the adds in the recorded (single-threaded) order
+    pub perm: Vec<u32>,
+    pub kind: String,
+}
+
+/// Build a permutation of 0..len from generated ingredients (kind, a, b, c, swaps).
+pub fn make_perm(len: usize, kind: u8, a: u16, b: u16, c: u16, swaps: &[(u16, u16)]) -> (String, Vec<u32>) {
+    let idx = |v: u16| crate::gen::pick_idx(v, len.max(1));
+    let mut p: Vec<u32> = (0..len as u32).collect();
+    if len < 2 {
+        return ("identity".into(), p);
+    }
+    let name = match kind % 7 {
+        0 => "identity",
+        1 => {
+            p.reverse();
+            "reversal"
+        }
+        2 => {
+            p.rotate_left(idx(a));
+            "rotation"
+        }
+        3 => {
+            // swap two blocks [i, i+l) and [j, j+l)
+            let (mut i, mut j) = (idx(a), idx(b));
+            if i > j {
+                std::mem::swap(&mut i, &mut j);
+            }
+            let l = (1 + idx(c) % 32).min(j - i).min(len - j);
+            for t in 0..l {
+                p.swap(i + t, j + t);
+            }
+            "block-swap"
+        }
+        4 | 5 => {
+            // k virtual threads own contiguous chunks and insert round-robin (bursts of `burst`)
+            let k = 2 + (a as usize % 15);
+            let burst = 1 + (b as usize % 8);
+            let chunk = (len + k - 1) / k;
+            let mut cursors: Vec<usize> = (0..k).map(|t| t * chunk).collect();
+            let ends: Vec<usize> = (0..k).map(|t| ((t + 1) * chunk).min(len)).collect();
+            let mut out = Vec::with_capacity(len);
+            while out.len() < len {
+                for t in 0..k {
+                    for _ in 0..burst {
+                        if cursors[t] < ends[t] {
+                            out.push(cursors[t] as u32);
+                            cursors[t] += 1;
+                        }
+                    }
+                }
+            }
+            p = out;
+            "round-robin-threads"
+        }
+        _ => "transpositions",
+    };
+    // a few extra transpositions on top (shrinks to none)
+    if kind % 7 == 6 || !swaps.is_empty() {
+        for &(i, j) in swaps {
+            p.swap(idx(i), idx(j));
+        }
+    }
+    (name.to_string(), p)
+}
+
+pub fn check(c: &OrderCase, l: &mut Local) -> Result<(), Fail> {
+    l.case();
+    l.label(&format!("orders:{}", c.kind));
+    l.label(&format!("orders:source:{}", c.source.split(':').next().unwrap_or("")));
+    let moved = c.perm.iter().enumerate().filter(|(i, &v)| *i as u32 != v).count();
+    let has_double = c.adds.iter().any(|a| a.pq.is_some());
+    if moved > 0 {
+        l.label("orders:genuine-reordering");
+        l.nontrivial_of(&(c.n.digits(), &c.perm));
+        if has_double {
+            l.label("orders:with-double-large-prime-relations");
+        }
+        l.sample(&format!("orders:{}", c.kind), || {
+            serde_json::json!({"n": c.n.to_string(), "source": c.source, "kind": c.kind, "adds": c.adds.len(), "moved": moved, "perm_head": c.perm.iter().take(24).collect::<Vec<_>>()})
+        });
+    }
+    let mut rs = RelationSet::new(c.n, c.fbsize, c.maxlarge);
+    let mut verified = 0usize;
+    for (step, a) in c.adds.iter().enumerate() {
+        let r = a.rel();
+        if !congruence_holds(&c.n, &r) {
+            return Err(Fail::new("HARNESS|recorded-relation-invalid", format!("recorded add #{} is not a congruence", step)));
+        }
+        guard("RelationSet::add", || rs.add(r, a.pq))?;
+        // every newly published cycle must be a complete, true congruence
+        while verified < rs.cycles.len() {
+            let cy = &rs.cycles[verified];
+            ensure!(
+                cy.cofactor == 1,
+                "RelationSet::add|published-with-cofactor",
+                "after add #{} the store published a relation with cofactor {} (n={})",
+                step,
+                cy.cofactor,
+                c.n
+            );
+            ensure!(
+                congruence_holds(&c.n, cy),
+                "RelationSet::add|published-false-congruence",
+                "after add #{} (order {}) the store published x={} which is not a congruence mod {}: factors {:?}",
+                step,
+                c.kind,
+                cy.x,
+                c.n,
+                cy.factors
+            );
+            verified += 1;
+        }
+    }
+    l.label_n("orders:cycles-verified", verified as u64);
+    // the multiset of inputs is the same, so the number of complete (cofactor 1) inputs is a floor
+    let complete_inputs = c.adds.iter().filter(|a| a.cofactor == 1).count();
+    ensure!(
+        rs.cycles.len() >= complete_inputs,
+        "RelationSet::add|lost-complete-relation",
+        "{} complete relations were added but only {} are published",
+        complete_inputs,
+        rs.cycles.len()
+    );
+    // final combination step on what was published
+    if !rs.cycles.is_empty() && c.fbsize >= 2 {
+        let fb = guard("FBase::new", || yamaquasi::fbase::FBase::new(yamaquasi::Int::from_bits(c.n), c.fbsize as u32))?;
+        if fb.len() == c.fbsize {
+            let cycles = rs.cycles.clone();
+            // like the sieves: the factor base belongs to k*n, the combination is done modulo n
+            let n = c.n_orig;
+            if !(c.n % n).is_zero() || !n.bit(0) {
+                return Err(Fail::new("HARNESS|bad-case", "store modulus is not a multiple of the odd input"));
+            }
+            let divs = guard("final_step", || yamaquasi::relations::final_step(&n, &fb, &cycles, Verbosity::Silent))?;
+            for d in &divs {
+                ensure!(
+                    *d > U1024::ONE && *d < n && (n % *d).is_zero(),
+                    "final_step|improper-divisor",
+                    "final_step returned {} for n = {}",
+                    d,
+                    n
+                );
+            }
+            if !divs.is_empty() {
+                l.label("orders:final_step-found-divisors");
+            }
+        }
+    }
+    Ok(())
+}
+
+fn histories(ctx: &Ctx) -> Vec<History> {
+    let mut out = vec![];
+    let mut rng = SplitMix(crate::engine::hash64(&(ctx.seed, "c04-orders")));
+    let count = ctx.pick(3u32, 12);
+    let mut specs: Vec<(Algo, &str, u32, Option<bool>)> = vec![];
+    for i in 0..count {
+        specs.push((Algo::Qs, "qs", 60 + (rng.below(30) as u32), None));
+        specs.push((Algo::Mpqs, "mpqs", 70 + (rng.below(40) as u32), if i % 2 == 0 { Some(true) } else { None }));
+        specs.push((Algo::Siqs, "siqs", 80 + (rng.below(50) as u32), if i % 2 == 0 { Some(true) } else { None }));
+        specs.push((Algo::Siqs, "siqs", 100 + (rng.below(30) as u32), None));
+    }
+    for (algo, name, bits, dbl) in specs {
+        let a = bits / 2;
+        let p = certified_prime(a, (rng.below(3)) as u32);
+        let q = certified_prime(bits - a, (rng.below(3)) as u32);
+        if p == q {
+            continue;
+        }
+        let n = p * q;
+        if let Ok(hs) = record(&n, algo, dbl, &format!("{}:{}:{:?}", name, n, dbl)) {
+            for h in hs {
+                if h.adds.len() >= 8 {
+                    out.push(h);
+                }
+            }
+        }
+    }
+    out
+}
+
+pub fn run(ctx: &Ctx, l: &mut Local) {
+    let hs = histories(ctx);
+    l.label_n("orders:recorded-histories", hs.len() as u64);
+    l.label_n("orders:recorded-adds", hs.iter().map(|h| h.adds.len() as u64).sum());
+    let per = ctx.n(40, 2000);
+    for (hi, h) in hs.iter().enumerate() {
+        // long histories are cut into windows so that a replay stays cheap; prefixes keep the
+        // single-large-prime partials that later doubles attach to
+        let cap = ctx.pick(1500usize, 6000);
+        let adds: Vec<RelSer> = h.adds.iter().take(cap).cloned().collect();
+        let len = adds.len();
+        let strat = (0u8..7, any::<u16>(), any::<u16>(), any::<u16>(), proptest::collection::vec((any::<u16>(), any::<u16>()), 0..6)).prop_map({
+            let adds = adds.clone();
+            let h = h.clone();
+            move |(kind, a, b, c, swaps)| {
+                let (name, perm) = make_perm(len, kind, a, b, c, &swaps);
+                OrderCase {
+                    n_orig: h.n_orig,
+                    n: h.n,
+                    fbsize: h.fbsize,
+                    maxlarge: h.maxlarge,
+                    source: h.source.clone(),
+                    adds: perm.iter().map(|&i| adds[i as usize].clone()).collect(),
+                    perm,
+                    kind: name,
+                }
+            }
+        });
+        ctx.run_prop("orders", hi as u64, per, &strat, l, check);
+    }
+    ctx.essential("orders:genuine-reordering", 50);
+    ctx.essential("orders:with-double-large-prime-relations", 5);
+    ctx.essential("orders:cycles-verified", 1000);
+}
+
+pub fn replay(_ctx: &Ctx, check_name: &str, case: &Value) -> Result<(), Fail> {
+    match check_name {
+        "orders" => replay_as::<OrderCase>(case, check),
+        _ => Err(Fail::new("HARNESS|unknown-check", check_name.to_string())),
+    }
 }
